@@ -123,6 +123,9 @@ func app(sort Sort, op string, args ...*Term) *Term {
 		sb.WriteString(a.S)
 	}
 	sb.WriteByte(')')
+	if sb.Len() > 400000 {
+		panic("gvc: term too large (engine limit)")
+	}
 	return &Term{S: sb.String(), Sort: sort}
 }
 
